@@ -11,9 +11,18 @@ CLAIMS = {
                 "path, every writer is context-managed and closed before the "
                 "rename, nothing is written after the rename, the rename is "
                 "not in finally/except, inputs/outputs never reach a "
-                "write/destroy sink, stale-file removal cannot hit an input. "
-                "This is the structural whole of the write-temp-then-rename "
-                "protocol, for every crash point at once.",
+                "write/destroy sink; a helper that renames on every path "
+                "counts as the rename, a rename loop must visit the whole "
+                "collection of temporaries, no handler or suppress() "
+                "swallows a write error. setup_task_paths is loaded from its "
+                "syntax tree and evaluated with a model of pathlib.Path on "
+                "a model file system in which links, '..' detours and the "
+                "suffix completion make several spellings denote one file "
+                "(~190 cases): aliasing outputs refused before anything is "
+                "removed, no input deleted, only the task's own stale files "
+                "removed, temporaries are '~' siblings. This is the "
+                "structural whole of the write-temp-then-rename protocol, "
+                "for every crash point at once.",
         "note": "Assumes POSIX rename atomicity, HDF5 flush on close; "
                 "parameter-role table (which parameter is input/output) "
                 "confirmed by reading; callee bodies outside dclab/cli "
@@ -114,8 +123,13 @@ CLAIMS["C17"] = {
             "matter; a hit returns the stored object, a miss computes with "
             "the given arguments, an in-place edit of an argument computes "
             "again; bound, eviction order and clear for MAX_SIZE 1 and 3. "
-            "Structural: the file cache key (resolved path, mtime_ns, size), "
-            "LazyContourList deques filled together, shared cached objects "
+            "The file-monitoring cache is evaluated on a model file system "
+            "(links, relative names across a change of directory, rewrites "
+            "with equal size / time stamp / within one second): every call "
+            "returns what a fresh call returns. LazyContourList is "
+            "evaluated over all short access sequences incl. failing "
+            "computations: requested contour returned, stores bounded and "
+            "position-aligned. Structural: shared cached objects "
             "reach the dataset interface only copied or read-only, memoised "
             "functions read no module state, no function in the package "
             "keys a memo on the identity of an argument.",
